@@ -13,6 +13,7 @@ import (
 	"github.com/git-lfs/git-lfs/v3/tasklog"
 	"github.com/git-lfs/git-lfs/v3/tools"
 	"github.com/git-lfs/git-lfs/v3/tr"
+	"github.com/git-lfs/git-lfs/v3/verifhook"
 )
 
 type Platform int
@@ -243,10 +244,14 @@ func CopyFileContents(cfg *config.Configuration, src string, dst string) error {
 	if err != nil {
 		return err
 	}
+	verifhook.Crash("lfs.copyfile.afterCopy")
 	err = tmp.Close()
 	if err != nil {
 		return err
 	}
+	verifhook.RenameCheck(tmp.Name(), dst)
+	verifhook.Crash("lfs.copyfile.beforeRename")
+	defer verifhook.Crash("lfs.copyfile.afterRename")
 	return os.Rename(tmp.Name(), dst)
 }
 
@@ -254,7 +259,9 @@ func LinkOrCopy(cfg *config.Configuration, src string, dst string) error {
 	if src == dst {
 		return nil
 	}
+	verifhook.Crash("lfs.link.before")
 	err := os.Link(src, dst)
+	verifhook.Crash("lfs.link.after")
 	if err == nil {
 		return err
 	}
